@@ -154,6 +154,8 @@ func (reg *Reg) referrerListByAPIPage(ctx context.Context, r ref.Ref, config sch
 	if resp.HTTPResponse().StatusCode != 200 {
 		return rl, nil, fmt.Errorf("failed to get referrers %s: %w", r.CommonName(), reghttp.HTTPError(resp.HTTPResponse().StatusCode))
 	}
+	// the API answered, resuming a response body that gets cut short uses the normal retry and backoff handling
+	req.IgnoreErr = false
 
 	// read manifest
 	rawBody, err := io.ReadAll(resp)
